@@ -160,6 +160,9 @@ Z = [
     ("dml_truncate", ["truncate table {i:orders}"], "m"),
     ("dml_insert_quoted", ["insert into {q:Mixed} ({q:Col}, {q:lower}) values (3, 'z')"], "m"),
     ("dml_merge", ["merge into {i:orders} {i:t} using {i:people} {i:s} on {i:t}.{i:person_id} = {i:s}.{i:id} when matched then update set {i:t}.{i:note} = {i:s}.{i:name} when not matched then insert ({i:id}, {i:person_id}) values ({i:s}.{i:id} + 1000, {i:s}.{i:id})"], "m"),
+    ("dml_merge_alias_delete", ["merge into {i:orders} as {i:t} using {i:people} as {i:s} on {i:t}.{i:person_id} = {i:s}.{i:id} when matched and {i:s}.{i:age} > 30 then delete"], "m"),
+    ("dml_merge_alias_update", ["merge into {i:orders} {i:t} using {i:people} {i:s} on {i:t}.{i:person_id} = {i:s}.{i:id} when matched then update set {i:note} = 'upd'"], "m"),
+    ("dml_merge_subquery", ["merge into {i:orders} {i:t} using (select {i:id}, {i:name} from {i:people}) {i:src} on {i:t}.{i:person_id} = {i:src}.{i:id} when matched then update set {i:t}.{i:note} = {i:src}.{i:name}"], "m"),
     ("dml_merge_delete", ["merge into {i:orders} using {i:people} on {i:orders}.{i:person_id} = {i:people}.{i:id} when matched and {i:people}.{i:age} > 30 then delete"], "m"),
     # ---- DDL
     ("ddl_create_table", ["create table {i:newt} ({i:a} int, {i:b} varchar(10))"], "m"),
@@ -187,6 +190,12 @@ Z = [
     ("ddl_cluster_by", ["alter table {i:people} cluster by ({i:id})"], "m"),
     ("ddl_set_tag", ["alter table {i:people} set tag {i:tg} = 'v'"], "m"),
     ("ddl_create_tag", ["create tag {i:tg}"], "m"),
+    ("ddl_column_set_tag", ["alter table {i:people} modify column {i:name} set tag {i:tg} = 'v'"], "m"),
+    ("ddl_column_unset_tag", ["alter table {i:people} modify column {i:name} unset tag {i:tg}"], "m"),
+    ("ddl_drop_schema_if_exists", ["drop schema if exists {i:s2}"], "m"),
+    ("ddl_drop_table_fq", ["drop table {i:db1}.{i:s2}.{i:people}"], "m"),
+    ("ddl_alter_add_varchar", ["alter table {i:orders} add column {i:extra} varchar(12)"], "m"),
+    ("ddl_create_or_replace_view", ["create or replace view {i:people_v} as select {i:id} from {i:people}"], "m"),
     # ---- session
     ("ses_use_database", ["use database {i:db2}"], "m"),
     ("ses_use_schema", ["use schema {i:s2}"], "m"),
